@@ -1,8 +1,8 @@
 SPECIFICATION Spec
 CONSTANTS
   QMode = "keyed"
-  ProgSel = 7
-  MaxLen = 2
+  ProgSel = 9
+  MaxLen = 1
   MaxSteps = 3
   MaxTime = 24
 CONSTRAINT Bound
